@@ -13,7 +13,7 @@ from checks.common.history import Failure, explore
 PROP = 'C02'
 LEVEL = 'exploration'
 SHARDS = {'quick': 4, 'thorough': 16}
-BUDGET_S = {'quick': 40, 'thorough': 420}
+BUDGET_S = {'quick': 150, 'thorough': 420}
 RULE = ('seeded random histories (1-80 ops; to 400 thorough) of dict-API operations on LRI and LRU, '
         'max_size 1-5 and 128, with/without a recording on_miss (pure, or one that itself stores the requested key and a neighbour into the cache), optional initial values; after every '
         'op contents, len, membership, the three counters and the on_miss log are compared with a '
@@ -372,7 +372,7 @@ class Check(object):
 
 
 def run(ctx):
-    n = {'quick': 4000, 'thorough': 80000}[ctx.tier]
+    n = {'quick': 6000, 'thorough': 80000}[ctx.tier]
     explore(ctx, Check(), n, 'cache')
 
 
